@@ -333,6 +333,11 @@ def run_ebnf_meta(ctx, G, inputs, only=None):
                 continue
             ref = R.Shaper(rg, inp, False, True, spans=True).shape(ds[0])
             out = call(ctx, 'parse', l.parse, w, pos=True, meta=True)
+            if out[0] == 'exc' and not out[1].get('is_ui'):
+                # a member of the language: computing the positions must not make parse() fail
+                ctx.judged([text, parser, lexer, 'ebnf-meta', w], True, ['kind:ebnf-meta'])
+                ctx.violation('parse-raises-with-propagate_positions:%s/%s' % (parser, lexer), {'kind': 'ebnf-meta', 'ebnf': G, 'engine': [parser, lexer], 'text': w}, {'exc': out[1]})
+                continue
             if out[0] != 'ok' or out[1] is None or out[1][0] != 'N' or ref is None or ref[0] != 'N':
                 continue
             problems, cnt = [], [0]
@@ -375,6 +380,11 @@ def _meta_corpus():
         (G(r('start', [a([['r', 'st'], L(';'), ['m', [a([['r', 'st']])]]])]), r('st', [a([['r', 'asg'], ['q', ['t', '_U'], '?', 0, 0]])], mods='?'), asg), texts),
         # a ?-rule whose only remaining child is a None placeholder (F-C06-1 again: nothing to hang its filtered token on)
         (G(r('start', [a([['r', 'st'], L(';')])]), r('st', [a([['t', '_U'], ['m', [a([['t', 'A']])]]])], mods='?')), ['u;', 'ua;', ' u ;', 'u\n;']),
+        # the same with the empty node next to a filtered token, on either side (an explicitly empty rule)
+        (G(r('start', [a([['r', 'rr']])]), r('rr', [a([['t', '_U'], ['r', 'e']])], mods='?'), r('e', [a([])])), ['u', ' u', 'u\n']),
+        (G(r('start', [a([['r', 'rr']])]), r('rr', [a([['r', 'e'], ['t', '_U']])], mods='?'), r('e', [a([])])), ['u', ' u']),
+        (G(r('start', [a([['r', 'rr'], ['t', 'A']])]), r('rr', [a([['q', L(';'), '*', 0, 0], ['q', ['r', 'e'], '?', 0, 0]])], mods='?'), r('e', [a([['q', ['t', '_U'], '*', 0, 0], ['q', ['t', 'B'], '?', 0, 0]])], mods='?')),
+         [';;a', 'a', ';ua', 'uba', ';;uuba']),
         # a node that matched nothing itself, inlined through a ?-rule that did: it takes that rule's span
         (G(r('start', [a([['r', 'e'], L('('), L(',')])], mods='?'), r('e', [a([['m', [a([['t', 'B']])]]], 'al0')])), ['(,', 'b(,', ' ( ,', '(\n,']),
     ]
